@@ -9,7 +9,7 @@ MODULE = "PQ.Props.C18"
 EXTRA_MODULES = ["PQ.Lemmas.ForeignMut"]
 EXTRA_THEOREMS = ["PQ.readOutcome_specWrite_mutated", "PQ.readOutcome_specWrite_mutated_page0", "PQ.readOutcome_specWrite_codec",
                   "PQ.readAll_specWrite_mutated", "PQ.readOutcome_of_entries", "PQ.next_true_err", "PQ.readAll_of_refused"]
-THEOREMS = ["PQ.C18." + t for t in ("checkPage_spec", "checked_page_total", "required_refuses", "optional_refuses", "codec_refused")]
+THEOREMS = ["PQ.C18." + t for t in ("checkPage_translated", "checkPage_eq_source", "checkPage_spec", "checked_page_total", "required_refuses", "optional_refuses", "codec_refused")]
 
 MUTS = ["dict", "index", "v2", "valenc:2", "valenc:3", "valenc:4", "valenc:5", "valenc:6", "valenc:7", "valenc:8", "valenc:9",
         "defenc:4", "defenc:0", "repenc:4", "repenc:0", "codec:3", "codec:4", "codec:5", "codec:6", "codec:7"]
@@ -77,12 +77,12 @@ def run(chk):
         dist[kind.split(":")[0]] = dist.get(kind.split(":")[0], 0) + 1
         if got != b:
             tie_breaks.append({"what": "reader model vs generated reader on a mutant", "op": o[:300], "impl": got[:200], "model": b[:200]})
-        fields = dict(p.split("=", 1) for p in got.split(" "))
+        fields = dict(p.split("=", 1) for p in got.split(" ") if "=" in p)      # "crash"/"panic"/"oversize:.." carry no fields
         before = sum(len(x) for x in rgs[:rg])
         recs_want = [z.proj(r_) for gr in rgs for r_ in gr]
         recs = [] if fields.get("recs", "-") == "-" else fields["recs"].split(";")
-        if "panic" in got:
-            verdict = "panic"
+        if "panic" in got or got.startswith("crash") or got.startswith("oversize"):
+            verdict = "panic"          # incl. the process dying (fatal runtime error) or running away
         elif fields.get("open") == "err":
             verdict = "refused-at-open"
         elif fields.get("err") == "err" and int(fields.get("nexts", 0)) <= before and recs == recs_want[:len(recs)]:
